@@ -324,7 +324,7 @@ def held_guard_violations(body, lock_call, uses, guard_ty=r"MutexGuard|RwLock(Re
     return bad
 
 
-def wide_all(body, op, depth=24):
+def wide_all(body, op, depth=24, partial=True):
     """locals reachable backwards through moves/refs, *all* call arguments and aggregate operands (over-approximation used to ask `which parameter does this depend on`)"""
     out = set()
     pl = op.get("m") or op.get("c") if isinstance(op, dict) else op
@@ -338,6 +338,8 @@ def wide_all(body, op, depth=24):
         out.add(l)
         for (bb, j, dpl, rv) in body.defs().get(l, []):
             ps = []
+            if not partial and len(dpl) > 1:
+                continue  # `x.f = ..` / `(*x).f = ..`: a field store, not a definition of x
             if j == -1:
                 ps = [a_.get("m") or a_.get("c") for a_ in (rv.get("args") or [])]
             else:
